@@ -156,6 +156,16 @@ def run_case(cls, params, rec):
 		if refmode == "tensor":
 			k2["references"] = kw["references"][idx]
 		a2 = None if args is None else tuple(a[idx] for a in args)
+		# every call hands its tensors over in another memory layout
+		lay = gen.layout_of(params, repr([int(i) for i in idx]), batch_size)
+		rec.setadd("layouts", lay)
+		if lay != "plain":
+			rec.count("nonplain_layout_calls")
+		xa = gen.relayout(xa, lay)[0]
+		if refmode == "tensor":
+			k2["references"] = gen.relayout(k2["references"], lay)[0]
+		if a2 is not None:
+			a2 = tuple(gen.relayout(t, lay)[0] for t in a2)
 		if params.get("bn_train"):
 			model.mix()
 		mon = gen.Immutable(X=xa, **({} if a2 is None else {"arg%d" % q: t
